@@ -54,3 +54,9 @@ Proof.
   split; [vm_compute; reflexivity|]. split; [vm_compute; reflexivity|].
   unfold bytes, sample_bytes. repeat constructor.
 Qed.
+
+(* the catch-all type takes every kind of item: ANYVALUE's type list, regenerated from the source, names the list type and every scalar
+   class of E5 (JIS-8 included, D58) *)
+Theorem C02_anyvalue_takes_every_kind : allowed_has anyvalue_types DArr = true /\ forall k, allowed_has anyvalue_types (DScal k) = true.
+Proof. split; [vm_compute; reflexivity|]. intros [| | | |[| | | | | | | | |]]; vm_compute; reflexivity. Qed.
+Print Assumptions C02_anyvalue_takes_every_kind.
